@@ -3,7 +3,7 @@ import worldlib as W
 from check_world import run_world
 
 OBLIGATIONS = ['Cvise.C04.backup_preserves', 'Cvise.C04.backup_creates', 'Cvise.C04.modes_back_when_pass_completes',
-               'Cvise.C04.modes_lost_without_restore']
+               'Cvise.C04.modes_lost_without_restore', 'Cvise.C04.shipped_backup_guard']
 
 
 def run(ctx):
